@@ -385,7 +385,8 @@ Eval(e, env) ==
             LET a == EvalArgs(e.args, 1, env, <<>>) IN
             IF ~a.ok THEN R(a.v, a.env)
             ELSE IF e.f \in BuiltinNames THEN R(Builtin(e.f, a.vs), a.env)
-            ELSE IF FnKey(e.f) \notin DOMAIN env THEN R(ErrV, a.env)
+            ELSE IF FnKey(e.f) \notin DOMAIN env
+            THEN R(IF "#simple" \in DOMAIN env THEN UnknownV ELSE ErrV, a.env)   \* the pre-pass knows no user functions
             ELSE \* a user-defined function: its body evaluated with the arguments bound to
                  \* the parameters, one level deeper (the depth limit makes recursion an error)
                  LET f == env[FnKey(e.f)] IN
